@@ -11,7 +11,7 @@
   * `findCollection_sound`, `findCollection_leftmost`  the structural search is `re.search` for this pattern
 -/
 import PydapModel.CacheKey
-namespace Pydap
+namespace Pydap.CK
 
 /-! ### keys -/
 
@@ -363,4 +363,4 @@ theorem findCollection_leftmost {p m : List Char} (h : findCollection p = some m
         simp at e1
         exact hl ds rest1 e1.2 (by simpa using hlen)
 
-end Pydap
+end Pydap.CK
